@@ -257,11 +257,9 @@ func calcCueItvls(segStart, segDur, utcStart, cueDur int) []cueItvl {
 	cueFullS := int(math.Ceil(float64(cueDur) * 0.001))
 	cueFullMS := cueFullS * 1000
 
-	for utcS := utcStart / cueFullMS; utcS <= (utcStart+segDur)/cueFullMS; utcS += cueFullS {
+	// Cues start on a grid of cueFullS seconds and show the UTC second of their start.
+	for utcS := utcStart / cueFullMS * cueFullS; utcS*1000 < utcEndMS; utcS += cueFullS {
 		cueStartMS := utcS * 1000
-		if cueStartMS == utcEndMS {
-			break
-		}
 		ci := cueItvl{
 			utcS:    utcS,
 			startMS: cueStartMS,
